@@ -46,7 +46,7 @@ def make(rng, path, with_m=True, m_last=False, omen_model=None):
                 omen_prob.insert(0, (0, round(rng.uniform(0.9, 1.0), 6)))
         base.sort(key=lambda x: -x[1])
         rulesets.write_ruleset(path, terms, base, omen_prob=omen_prob, omen=(OMEN_MODELS[omen_model] if omen_model is not None else rng.choice(OMEN_MODELS)),
-                               omen_keyspace=[(0, 1), (1, 3), (2, 3)], uuid='11111111-2222-3333-4444-%012d' % rng.randint(0, 10 ** 11))
+                               omen_keyspace=[(lv_, 2 * lv_ + 1) for lv_, _ in sorted(omen_prob)] or [(1, 3)], uuid='11111111-2222-3333-4444-%012d' % rng.randint(0, 10 ** 11))
         pcfg = ptq.load_pcfg(path)
         probs = [it['prob'] for it, _ in ptq.run_history(pcfg, [], with_queue=False)['sessions'][0]['ev']]
         if len(set(probs)) == len(probs) and len(probs) <= 16:   # (the number of pre-terminals; each may hold several guesses)
